@@ -71,7 +71,9 @@ ASSUMPTIONS = [
 RULE = ("cases: for each scheduler (FIFO random/grid/regularized evolution, the six Hyperband types, synchronous Hyperband, DEHB, "
         "PBT, median rule, MOASHA with per-metric modes) a pair of real runs — mode min on f, mode max on -f — with equal seeds "
         "and the same scripted workers; the pair must produce identical suggestions and decisions; for the Hyperband types both "
-        "runs are additionally compared with the Lean model. distinct by sha256 of the spec; non-trivial iff the run contains "
+        "runs are additionally compared with the Lean model; MOASHA also with scripts that end by themselves / report every second "
+        "level only; TuningStatus, ExperimentResult.best_config and Tuner.best_config (per-metric modes, by name and by index) in "
+        "pairs. distinct by sha256 of the spec; non-trivial iff the run contains "
         "at least one non-CONTINUE decision or one resume (decisions that depend on metric values)")
 
 
